@@ -348,6 +348,9 @@ func sample(js []byte) json.RawMessage {
 func saveReplay(prop string, js []byte) string {
 	h := sha1.Sum(js)
 	dir := filepath.Join(Root, "replays", prop)
+	if d := os.Getenv("VERIF_REPLAY_DIR"); d != "" { // sensitivity runs keep their replays out of the committed tree
+		dir = filepath.Join(d, prop)
+	}
 	os.MkdirAll(dir, 0o755)
 	p := filepath.Join(dir, hex.EncodeToString(h[:6])+".json")
 	os.WriteFile(p, js, 0o644)
